@@ -689,6 +689,21 @@ fn gen_literal(u: &mut Src) -> (String, &'static str) {
             }
             (neg(u, s), "integer-literal")
         }
+        11 if u.ratio(1, 40) => {
+            // more significant digits than jq mode's rendered-mantissa cap (100 000): a tiny
+            // halfway point, >100 000 zeros, a final 1, and an exponent marker so that the
+            // scientific (capped) rendering is chosen
+            let k = u.range_i64(-300, -8);
+            let mut f: f64 = format!("{}e{}", u.range(1, 9999), k).parse().unwrap();
+            if f == 0.0 || !f.is_normal() {
+                f = 1e-10;
+            }
+            let (m, e) = decompose(f);
+            let mid = exact_decimal(2 * m + 1, e - 1);
+            let z = u.range(100_001, 100_400);
+            let tail = if u.ratio(1, 4) { "" } else { "1" };
+            (format!("{}{}{}{}", mid, "0".repeat(z), tail, *u.pick(&["e0", "E0", "e-5", "e3"])), "beyond-mantissa-cap")
+        }
         _ => {
             // the shortest spelling of a double, as Rust prints it in its two styles
             let f = gen_f64(u).0;
@@ -702,6 +717,34 @@ fn literal_nontrivial(lit: &str, v: f64) -> bool {
 }
 
 // ---------------------------------------------------------------- failure plumbing
+
+pub const MANTISSA_CAP: usize = 100_000;
+const KNOWN_CAP_SIG: &str = "C10/jq/literal-mantissa-beyond-100000-digits/value-differs";
+
+fn significant_digits(lit: &str) -> usize {
+    let mant = lit.split(['e', 'E']).next().unwrap_or("");
+    let d: String = mant.chars().filter(|c| c.is_ascii_digit()).collect();
+    d.trim_start_matches('0').len()
+}
+
+/// Failure of a literal route. A literal with more significant digits than jq mode's
+/// rendered-mantissa cap whose printed value differs is the recorded finding; anything
+/// else keeps its own signature.
+fn literal_fail(m: Mis, lit: &str, input: Value) -> Fail {
+    if m.shape == "value-differs" && m.route.starts_with("jq/") && significant_digits(lit) > MANTISSA_CAP + 1 && lit.contains(['e', 'E']) {
+        let printed: String = m.printed.chars().take(60).collect();
+        return Fail::new(KNOWN_CAP_SIG, json!({"input": input, "route": m.route, "printed_head": printed, "printed_len": m.printed.len(), "why": m.why}));
+    }
+    to_fail(m, input)
+}
+
+fn short(lit: &str) -> String {
+    if lit.len() <= 400 {
+        lit.to_string()
+    } else {
+        format!("{}…(+{} chars)…{}", &lit[..200], lit.len() - 260, &lit[lit.len() - 60..])
+    }
+}
 
 fn to_fail(m: Mis, input: Value) -> Fail {
     Fail::new(format!("C10/{}/{}", m.route, m.shape), json!({"input": input, "printed": m.printed, "why": m.why}))
@@ -789,7 +832,10 @@ fn cli_route(name: &'static str, args: &[&str], file: &std::path::Path, read: Re
         },
         Read::YamlSeq => {
             let mut v = vec![];
-            for line in out.lines().filter(|l| !l.is_empty()) {
+            // YAML-sourced input keeps its flow style: `[a, b, c]` on one line
+            let flow: Option<Vec<String>> = split_json_array(&out).filter(|_| out.trim_start().starts_with('[')).map(|ts| ts.into_iter().map(|t| format!("- {}", t)).collect());
+            let block: Vec<String> = out.lines().filter(|l| !l.is_empty()).map(|l| l.to_string()).collect();
+            for line in flow.as_ref().unwrap_or(&block) {
                 let r = line.strip_prefix("- ").ok_or_else(|| format!("line is not a `- item`: {:?}", line)).and_then(|t| yaml_number(t.trim_end()).map(|n| (n, t.trim_end().to_string())));
                 match r {
                     Ok((n, t)) => {
@@ -883,6 +929,18 @@ fn replay_input(v: &Value) -> Option<Fail> {
                 check_literal(&lit, want, &mut st)
                     .and_then(|_| check_literal_document(&[(lit.clone(), want)], &mut st))
                     .map_err(|m| to_fail(m, json!({"literal": lit})))
+            }
+        }
+        // a literal too long to store: prefix + zeros x "0" + suffix
+        "literal-parts" => {
+            let lit = format!("{}{}{}", inp["prefix"].as_str().unwrap_or(""), "0".repeat(inp["zeros"].as_u64().unwrap_or(0) as usize), inp["suffix"].as_str().unwrap_or(""));
+            let want: f64 = lit.parse().unwrap_or(f64::NAN);
+            if !want.is_finite() || !matches!(jsonval::parse_one(lit.as_bytes()), Ok(J::Num(_))) {
+                Err(Fail::new("C10/replay/bad-input", json!({"literal": short(&lit)})))
+            } else {
+                check_literal(&lit, want, &mut st)
+                    .and_then(|_| check_literal_document(&[(lit.clone(), want)], &mut st))
+                    .map_err(|m| literal_fail(m, &lit, json!({"literal": short(&lit), "literal_len": lit.len()})))
             }
         }
         "cli" => {
@@ -1003,17 +1061,24 @@ pub fn run(cx: &mut Ctx) {
                 st.sample(class, || json!({"literal": lit.chars().take(200).collect::<String>(), "value": format!("{:e}", v)}));
                 lits.push((lit, v));
             }
-            st.describe(|| json!({"literals": lits.iter().map(|l| l.0.clone()).collect::<Vec<_>>()}));
+            st.describe(|| json!({"literals": lits.iter().map(|l| short(&l.0)).collect::<Vec<_>>()}));
+            let mut small: Vec<(String, f64)> = vec![];
             for (lit, v) in &lits {
-                check_literal(lit, *v, st).map_err(|m| to_fail(m, json!({"literal": lit, "value": format!("{:e}", v)})))?;
+                check_literal(lit, *v, st).map_err(|m| literal_fail(m, lit, json!({"literal": short(lit), "literal_len": lit.len(), "value": format!("{:e}", v)})))?;
+                if lit.len() > 5000 {
+                    // huge literals go through the evaluator on their own
+                    check_literal_document(&[(lit.clone(), *v)], st).map_err(|m| literal_fail(m, lit, json!({"literal": short(lit), "literal_len": lit.len()})))?;
+                } else {
+                    small.push((lit.clone(), *v));
+                }
             }
-            if !lits.is_empty() {
-                check_literal_document(&lits, st).map_err(|m| to_fail(m, json!({"literals": lits.iter().map(|l| l.0.clone()).collect::<Vec<_>>()})))?;
+            if !small.is_empty() {
+                check_literal_document(&small, st).map_err(|m| to_fail(m, json!({"literals": small.iter().map(|l| l.0.clone()).collect::<Vec<_>>()})))?;
             }
             Ok(())
         },
     );
-    for c in ["nontrivial", "g-json", "mantissa-exponent", "zero-spelling", "halfway", "exact-expansion", "edge", "zero-runs", "integer-literal", "shortest", "has-exponent", "long>100"] {
+    for c in ["nontrivial", "beyond-mantissa-cap", "g-json", "mantissa-exponent", "zero-spelling", "halfway", "exact-expansion", "edge", "zero-runs", "integer-literal", "shortest", "has-exponent", "long>100"] {
         cx.require_class("literal-printers", c, 50);
     }
 
